@@ -519,6 +519,17 @@ func ruleSIBviews(w *World, r *Report) {
 		lookSig[v.name] = strings.Join(sigs, " ; ")
 	}
 	apos := w.Pos(ad.Decl.Pos())
+	// (a look-up for a version CREATED at the record's timestamp is the replay-idempotence test — CDC-15 —, not the look-up
+	// for the active version: it may be a helper, or a loop of AddEdge itself, and only the forward view needs it)
+	for _, vn := range []string{"forward", "reverse"} {
+		var keep []string
+		for _, sg := range strings.Split(lookSig[vn], " ; ") {
+			if !strings.Contains(sg, "CreatedAt==") {
+				keep = append(keep, sg)
+			}
+		}
+		lookSig[vn] = strings.Join(keep, " ; ")
+	}
 	r.Cond(lookSig["forward"] == lookSig["reverse"] && lookSig["forward"] == "DeletedAt==0&PEER==peer", "SIB-views", "AddEdge:active-lookup:forward=reverse", apos, "both look-ups stop on {"+lookSig["forward"]+"}", fmt.Sprintf("AddEdge looks up the existing edge differently in the two views (or not by the active version of the peer): forward {%s}, reverse {%s}: after a soft unlink a re-link is not mirrored in the incoming view", lookSig["forward"], lookSig["reverse"]))
 	// --- isActiveAtTime: decided over every ordering of its arguments and 0
 	act := w.Func("pkg/core", "isActiveAtTime")
